@@ -12,7 +12,8 @@ EXPLANATION = ("Rely/guarantee check with a symbolic environment: ONE caller exe
                "allowed by the lock-table invariant (any number of other callers doing anything legal). z3 decides every branch on the counter. Checked: "
                "every atomic block preserves the invariant (delta counter == delta own entry), the inner cache is read only under a read/write lock and "
                "populated/removed only under the write lock, the getter runs only under the write lock on a missing key, and on EVERY exit path "
-               "(normal, getter raises, body raises, inner cache raises) the caller's own entries and its contribution to the counter are gone.")
+               "(normal, getter raises, body raises, inner cache raises) the caller's own entries and its contribution to the counter are gone. "
+               "Cross-check: 2-3 real callers on a simulated lock/sleep/inner cache under a delay-bounded schedule (positions of the delays are z3 integers).")
 ASSUMPTIONS = ["invariant I: counter == sum of per-caller entries for keys hashing to the slot; entries >= -1; an entry of -1 (writer) excludes all others. Other callers are assumed to obey I (they run the same code, whose blocks are shown to preserve I)",
                "the shared lock object (constructor argument) and time.sleep (module-level name in coba.context.cachers) are the interference points; spin loops are unrolled twice and then cut (waiting is legal; liveness under fairness is outside)",
                "ConcurrentCacher._index is replaced by a 2-valued stub so that distinct keys may share a slot; a single caller never nests get_set on colliding keys (property precondition)",
